@@ -52,6 +52,14 @@ package utils
 //@   ensures [C05.clean.empty] p == "" ==> result == "/" && calls(path.Clean) == 0
 //@   ensures [C05.clean.always] p != "" ==> calls(path.Clean) == 1 && arg(path.Clean, 1, path) == (at(p, 0) != 47 ? concat("/", p) : p)
 //@   ensures [C05.clean.slash] p != "" && (at(arg(path.Clean, 1, path), len(arg(path.Clean, 1, path)) - 1) != 47 || ret(path.Clean, 1) == "/") ==> result == ret(path.Clean, 1)
+// the coding negotiated for a response: some non-empty needle that the header contains, or "" when it contains none
+//@ func Contains(haystack, needles)
+//@   props C16
+//@   modifies nothing
+//@   loop 1 invariant forall k int :: 0 <= k && k < $i ==> needles[k] == "" || !uf_b_Contains(haystack, needles[k])
+//@   ensures [C16.contains.none] result == "" ==> forall k int :: 0 <= k && k < len(needles) ==> needles[k] == "" || !uf_b_Contains(haystack, needles[k])
+//@   ensures [C16.contains.hit]  result != "" ==> uf_b_Contains(haystack, result)
+
 // a host without a colon is returned as it is; otherwise the port is split off by net.SplitHostPort, and a host that
 // does not split is returned unchanged
 //@ func StripHostPort(h)
